@@ -118,6 +118,12 @@ def harness(env, case):
     except Exception as e:
         env.fail("training design cannot be built", {"exc": type(e).__name__, "site": core.repo_site(e), "msg": str(e)[:200]})
         return
+    # the caller goes on using its own objects: lists handed over by name (levels=lv, knots=kn) are
+    # re-ordered / overwritten in place after training -- the design must not follow them
+    ns["lv"].reverse()
+    ns["lv"].append(4)
+    if "kn" in ns:
+        ns["kn"][0] = ns["kn"][0] + 0.5
     mats = []
     if dm.common is not None:
         mats.append(("common", dm.common))
